@@ -10,6 +10,7 @@ import HitenModel.Gen.C07
 import HitenModel.Gen.C04
 import HitenModel.Core.Legendre
 import HitenModel.Lemmas.REReal
+import HitenModel.Lemmas.Legendre
 import Mathlib.Tactic.FieldSimp
 import Mathlib.Tactic.Ring
 import Mathlib.Tactic.IntervalCases
@@ -275,6 +276,55 @@ degree n, so `T_n(r/d) = T_n(r)/dⁿ` gives the expansion about a primary at dis
 theorem legendre_generating_identity :
     ((List.range 11).all fun N => Legendre.generatingIdentity N && Legendre.homogeneous N) = true := by
   decide +kernel
+
+/-- **legendre_generating_identity_all_degrees** (power-series form; `Lemmas/Legendre.lean`).  For EVERY degree, not only N ≤ 10:
+let `R` be a commutative ring without additive torsion (e.g. any ℚ-algebra, `ℚ[x,y,z]`, ℝ), `x s : R`, and `T : ℕ → R` any
+sequence with `T 0 = 1`, `T 1 = x` and `(n+2)·T (n+2) = (2n+3)·x·T (n+1) − (n+1)·s·T n` — the recurrence of
+`_build_T_polynomials` (`T_m = (2m−1)/m · x · T_{m−1} − (m−1)/m · s · T_{m−2}`, traced in `legendre_recurrence_traced`) at `m = n+2`,
+multiplied by `m`.  Then in `R⟦t⟧`: `(1 − 2x·t + s·t²) · (Σ_n T_n tⁿ)² = 1`, i.e. `Σ T_n tⁿ` is THE power series
+`1/√(1 − 2xt + st²)` with constant term 1.  Proof: the recurrence is coefficientwise the ODE `(1−2xt+st²) G' = (x−st) G`, hence
+`d/dt[(1−2xt+st²) G²] = 0`.  `legendre_generating_identity` above (computed by the kernel on the executable recurrence
+`Core/Legendre.lean`, N ≤ 10 = the range traced from the code) is thereby an instance of a theorem valid for all N. -/
+theorem legendre_generating_identity_all_degrees {R : Type*} [CommRing R] [IsAddTorsionFree R] (x s : R) (T : ℕ → R)
+    (h0 : T 0 = 1) (h1 : T 1 = x)
+    (hrec : ∀ n : ℕ, ((n : R) + 2) * T (n + 2) = (2 * (n : R) + 3) * (x * T (n + 1)) - ((n : R) + 1) * (s * T n)) :
+    (1 - 2 * PowerSeries.C x * PowerSeries.X + PowerSeries.C s * PowerSeries.X ^ 2) * PowerSeries.mk T ^ 2 = 1 :=
+  LegendreGen.generating_identity x s T h0 h1 hrec
+
+/-- the same over a ℚ-algebra with the recurrence in rational scalars (`(2m−1)/m`, `(m−1)/m` cleared of the denominator `m = n+2`) -/
+theorem legendre_generating_identity_rat {R : Type*} [CommRing R] [Algebra ℚ R] (x s : R) (T : ℕ → R)
+    (h0 : T 0 = 1) (h1 : T 1 = x)
+    (hrec : ∀ n : ℕ, ((n : ℚ) + 2) • T (n + 2) = (2 * (n : ℚ) + 3) • (x * T (n + 1)) - ((n : ℚ) + 1) • (s * T n)) :
+    (1 - 2 * PowerSeries.C x * PowerSeries.X + PowerSeries.C s * PowerSeries.X ^ 2) * PowerSeries.mk T ^ 2 = 1 :=
+  LegendreGen.generating_identity_rat x s T h0 h1 hrec
+
+/-- **legendre_truncated_identity** (the statement the property uses, every N): with `g_N = Σ_{n≤N} T_n tⁿ`
+(`LegendreGen.partialSum`) and `q = 1 − 2x·t + s·t²` (`LegendreGen.quadPoly`), polynomials in the grading variable `t`, every
+coefficient of `t^r`, `r ≤ N`, of `q · g_N²` is `1` (r = 0) or `0` (1 ≤ r ≤ N): `q · g_N² ≡ 1` modulo `t^{N+1}`. -/
+theorem legendre_truncated_identity {R : Type*} [CommRing R] [IsAddTorsionFree R] (x s : R) (T : ℕ → R)
+    (h0 : T 0 = 1) (h1 : T 1 = x)
+    (hrec : ∀ n : ℕ, ((n : R) + 2) * T (n + 2) = (2 * (n : R) + 3) * (x * T (n + 1)) - ((n : R) + 1) * (s * T n))
+    (N r : ℕ) (hr : r ≤ N) :
+    (LegendreGen.quadPoly x s * LegendreGen.partialSum T N ^ 2).coeff r = if r = 0 then 1 else 0 :=
+  LegendreGen.truncated_identity x s T h0 h1 hrec N r hr
+
+/-- **legendre_homogeneous_identity** (every N, in `ℚ[x,y,z]` — the all-degree version of `legendre_generating_identity`): with
+`T_n = LegendreGen.Tpoly n` defined by the code's recurrence (`x = X 0`, `ρ² = X 0² + X 1² + X 2²`), each `T_n` is homogeneous of
+degree `n`, and `(Σ_{n≤N} T_n)² · (1 − 2x + ρ²)` has homogeneous component `1` in degree 0 and `0` in degrees `1..N`:
+it is `≡ 1` modulo terms of degree `> N`. -/
+theorem legendre_homogeneous_identity :
+    (∀ n, (LegendreGen.Tpoly n).IsHomogeneous n) ∧
+    ∀ N r : ℕ, r ≤ N →
+      MvPolynomial.homogeneousComponent r
+        ((∑ n ∈ Finset.range (N + 1), LegendreGen.Tpoly n) ^ 2 * (1 - 2 * LegendreGen.xv + LegendreGen.sv))
+        = if r = 0 then 1 else 0 :=
+  ⟨LegendreGen.Tpoly_isHomogeneous, LegendreGen.homogeneous_identity⟩
+
+/-- non-vacuity of the recurrence hypotheses: over `ℚ` with `x = s = 1` the constant sequence `T n = 1` satisfies them
+(`G = 1/(1−t)`, `(1−t)²·G² = 1`) -/
+example : (1 - 2 * PowerSeries.C (1 : ℚ) * PowerSeries.X + PowerSeries.C (1 : ℚ) * PowerSeries.X ^ 2)
+    * PowerSeries.mk (fun _ : ℕ => (1 : ℚ)) ^ 2 = 1 :=
+  legendre_generating_identity_all_degrees (R := ℚ) 1 1 (fun _ => 1) rfl rfl (fun n => by ring)
 
 /-- **cn_closed_form** (n = 2, 3, 4 as traced in `Gen.C04`): `c_n` is `γ⁻³` times the weight with which `T_n` enters
 `(1−μ)/r₁ + μ/r₂` in the scaled local frame: `μ + (1−μ)(−1)ⁿ/dⁿ⁺¹` (L1, `d = (1−γ)/γ`), `(−1)ⁿ[μ + (1−μ)/dⁿ⁺¹]` (L2, `d = (1+γ)/γ`),
